@@ -39,6 +39,7 @@ def run(repo, res, tier):
                         f"(configurations: {', '.join(sorted(set(cfgs)))}); loaders document only LexerError and ParseError",
                         extra={"configs": sorted(set(cfgs))}))
         bad_origins.setdefault(origin, set()).add(exc)
+    common.triage_tb3(repo, res)
     for s in sorted(sites):
         res.oblige("T3", s, ok=s not in bad_origins and not any(s in o for o in bad_origins),
                    detail="exceptions from this source reaching parse(): " + ",".join(sorted(bad_origins.get(s, []))) or "documented types only")
